@@ -21,6 +21,16 @@ TRUSTED = ["uuid 1.8.0 new_v5 (Cargo.lock pinned)", "lazy_static 1.x Lazy::get r
 UUID_PIN = ("1.8.0", "a183cf7feeba97b4dd1c0d46788634f6221d87fa961b305bed08c851829efcc0")
 
 
+def _guardsquare_namespace_bytes():
+    """uuid5(NAMESPACE_DNS, "guardsquare.com") computed from the RFC definition (SHA-1 of namespace bytes + name, version/variant bits)"""
+    import hashlib
+    dns = bytes.fromhex("6ba7b8109dad11d180b400c04fd430c8")
+    h = bytearray(hashlib.sha1(dns + b"guardsquare.com").digest()[:16])
+    h[6] = (h[6] & 0x0F) | 0x50
+    h[8] = (h[8] & 0x3F) | 0x80
+    return list(h)
+
+
 def is_new_v5(n):
     return n.get("k") == "Call" and "fn" in n and n["fn"]["path"].endswith("::new_v5") and n["fn"]["path"].startswith("uuid::")
 
@@ -64,9 +74,25 @@ def run(ctx, rep):
                 if t[0] == "call" and t[1].endswith("str::as_bytes") and t[2][0][0] == "lit" and t[2][0][1] == "str":
                     return t[2][0][2] == "guardsquare.com"
                 return False
-            ok_ns = ns[0] == "call" and ns[1].startswith("uuid::") and ns[1].endswith("new_v5") and len(ns[2]) == 2 \
+            ns_shown = ns
+            if ns[0] == "const" and ns[1] in fx.bodies:
+                # a named constant: its initialiser (a const body) is evaluated like any other expression
+                try:
+                    rc = S.Sym(fx, inline_depth=6).eval_body(fx.bodies[ns[1]])
+                    if len(rc) == 1 and not rc[0][0].conds:
+                        ns = rc[0][1][1]
+                except S.Undecidable:
+                    pass
+            want_bytes = _guardsquare_namespace_bytes()
+            if ns[0] == "call" and ns[1].startswith("uuid::") and ns[1].endswith("from_bytes") and len(ns[2]) == 1 and ns[2][0][0] == "array":
+                got = [e_[2] if (e_[0] == "lit" and e_[1] == "int") else None for e_ in ns[2][0][1]]
+                rep.check("C18.2", "C18.2/namespace-value", got == want_bytes, loc=F.short_file(b["sp"]), found="namespace = Uuid::from_bytes(%s)" % got,
+                          expected="the 16 bytes of uuid5(NAMESPACE_DNS, \"guardsquare.com\") = %s (RFC 4122 4.3, computed by the checker)" % want_bytes)
+                ns = None
+            ok_ns = ns is not None and ns[0] == "call" and ns[1].startswith("uuid::") and ns[1].endswith("new_v5") and len(ns[2]) == 2 \
                 and ns[2][0][0] == "const" and ns[2][0][1].endswith("NAMESPACE_DNS") and ns[2][0][1].startswith("uuid::") and is_domain(ns[2][1])
-            rep.check("C18.2", "C18.2/namespace-value", ok_ns, loc=F.short_file(b["sp"]), found="namespace = %s" % S.tstr(ns)[:300],
+            if ns is not None:
+              rep.check("C18.2", "C18.2/namespace-value", ok_ns, loc=F.short_file(b["sp"]), found="namespace = %s" % S.tstr(ns)[:300],
                       expected='Uuid::new_v5(&Uuid::NAMESPACE_DNS, b"guardsquare.com") (through any helper / lazy_static)')
     # every construction of ProguardMapping: the function that contains it evaluates to a mapping over untouched bytes
     cons = []
